@@ -293,6 +293,10 @@ def build_prior(pr):
                 kw.update(P_min=P["min"] * pu, P_max=pmax)
             else:
                 pars["P"] = xu.with_unit(pm.Uniform("P", P["min"], P["max"]), pu)
+            if pr.get("e_fixed") is not None:
+                # eccentricity held constant (e.g. circular orbits only), as in the documentation's fixed-parameter examples
+                import pytensor.tensor as pt_
+                pars["e"] = xu.with_unit(pm.Deterministic("e", pt_.constant(float(pr["e_fixed"]))), u.one)
             if s["kind"] == "const":
                 kw["s"] = s["value"] * unit(s["unit"])
             elif s["kind"] == "lognormal":
